@@ -2,6 +2,8 @@ package main
 
 import (
 	"fmt"
+	"regexp"
+	"strconv"
 	"go/token"
 	"go/types"
 	"strings"
@@ -43,7 +45,28 @@ func noop(e *Engine, st *State, args []Value, call *ssa.Call, pos token.Pos) Val
 
 func init() {
 	models["fmt.Sprintf"] = func(e *Engine, st *State, args []Value, call *ssa.Call, pos token.Pos) Value {
+		if s, ok := e.sprintfConcrete(st, args[0], args[1]); ok {
+			return StringV{conc: s}
+		}
 		return opaqueNonEmptyIfFormat(args)
+	}
+	models["fmt.Fprintf"] = func(e *Engine, st *State, args []Value, call *ssa.Call, pos token.Pos) Value {
+		w, ok := args[0].(Iface)
+		if !ok || w.typ == nil {
+			return TupleV{BV(64, 0), Iface{}}
+		}
+		var text Value = StringV{opaque: true}
+		if s, ok := e.sprintfConcrete(st, args[1], args[2]); ok {
+			text = StringV{conc: s}
+		}
+		// continue as w.WriteString(text) / w.Write([]byte(text)) on the real writer
+		ms := e.prog.MethodSets.MethodSet(w.typ)
+		for i := 0; i < ms.Len(); i++ {
+			if ms.At(i).Obj().Name() == "WriteString" {
+				return tailCall{FuncV{fn: e.prog.MethodValue(ms.At(i))}, []Value{w.val, text}}
+			}
+		}
+		return TupleV{BV(64, 0), Iface{}} // writers without WriteString (loggers, files): no effect
 	}
 	models["fmt.Sprint"] = func(e *Engine, st *State, args []Value, call *ssa.Call, pos token.Pos) Value {
 		return StringV{opaque: true}
@@ -54,7 +77,7 @@ func init() {
 	models["fmt.Errorf"] = func(e *Engine, st *State, args []Value, call *ssa.Call, pos token.Pos) Value {
 		return Iface{typ: opaqueErrType, val: Pointer{obj: st.alloc(&Object{typ: opaqueErrType, slots: []Value{}}), off: BV(64, 0)}}
 	}
-	for _, n := range []string{"fmt.Fprintf", "fmt.Fprintln", "fmt.Fprint", "fmt.Printf", "fmt.Println", "fmt.Print"} {
+	for _, n := range []string{"fmt.Fprintln", "fmt.Fprint", "fmt.Printf", "fmt.Println", "fmt.Print"} {
 		models[n] = func(e *Engine, st *State, args []Value, call *ssa.Call, pos token.Pos) Value {
 			return TupleV{BV(64, 0), Iface{}}
 		}
@@ -66,9 +89,21 @@ func init() {
 		return StringV{opaque: true, nonEmpty: true}
 	}
 	models["strconv.FormatUint"] = func(e *Engine, st *State, args []Value, call *ssa.Call, pos token.Pos) Value {
+		if t, ok := args[0].(*Term); ok && t.k {
+			if b, ok := args[1].(*Term); ok && b.k {
+				return StringV{conc: strconv.FormatUint(t.c, int(b.c))}
+			}
+		}
 		return StringV{opaque: true, nonEmpty: true}
 	}
-	models["strconv.FormatInt"] = models["strconv.FormatUint"]
+	models["strconv.FormatInt"] = func(e *Engine, st *State, args []Value, call *ssa.Call, pos token.Pos) Value {
+		if t, ok := args[0].(*Term); ok && t.k {
+			if b, ok := args[1].(*Term); ok && b.k {
+				return StringV{conc: strconv.FormatInt(int64(t.c), int(b.c))}
+			}
+		}
+		return StringV{opaque: true, nonEmpty: true}
+	}
 	for _, n := range []string{"(*sync.Mutex).Lock", "(*sync.Mutex).Unlock", "(*sync.RWMutex).Lock", "(*sync.RWMutex).Unlock",
 		"(*sync.RWMutex).RLock", "(*sync.RWMutex).RUnlock", "(*sync.WaitGroup).Add", "(*sync.WaitGroup).Done", "(*sync.WaitGroup).Wait",
 		"runtime.KeepAlive", "runtime.Gosched"} {
@@ -158,6 +193,193 @@ func init() {
 		}
 		panic(unsupported{"reflect.Value.IsNil on a non-nillable kind"})
 	}
+	// regexp: exact on concrete operands (Go's own regexp engine runs natively inside the model);
+	// symbolic subjects are handled only by the pikevm model where a harness asks for it
+	compile := func(e *Engine, st *State, args []Value, must bool) Value {
+		pat, ok := e.concString(st, args[0])
+		if !ok {
+			panic(unsupported{"regexp compile of a non-constant pattern"})
+		}
+		re, err := regexp.Compile(pat)
+		if err != nil {
+			if must {
+				panic(unsupported{"regexp.MustCompile panics: " + err.Error()})
+			}
+			return TupleV{Pointer{}, Iface{typ: opaqueErrType, val: Pointer{obj: st.alloc(&Object{typ: opaqueErrType, slots: []Value{}}), off: BV(64, 0)}}}
+		}
+		p := Pointer{obj: st.alloc(&Object{typ: types.Typ[types.Int], slots: []Value{BV(64, 0)}, native: re}), off: BV(64, 0)}
+		if must {
+			return p
+		}
+		return TupleV{p, Iface{}}
+	}
+	models["regexp.MustCompile"] = func(e *Engine, st *State, args []Value, call *ssa.Call, pos token.Pos) Value {
+		return compile(e, st, args, true)
+	}
+	models["regexp.Compile"] = func(e *Engine, st *State, args []Value, call *ssa.Call, pos token.Pos) Value {
+		return compile(e, st, args, false)
+	}
+	reOf := func(e *Engine, st *State, v Value) *regexp.Regexp {
+		p, ok := v.(Pointer)
+		if !ok || p.obj == 0 {
+			panic(unsupported{"regexp method on nil/unknown regexp"})
+		}
+		re, ok := st.obj(p.obj).native.(*regexp.Regexp)
+		if !ok {
+			panic(unsupported{"regexp method on an object not produced by the compile model"})
+		}
+		return re
+	}
+	models["(*regexp.Regexp).MatchString"] = func(e *Engine, st *State, args []Value, call *ssa.Call, pos token.Pos) Value {
+		s, ok := e.concString(st, args[1])
+		if !ok {
+			panic(unsupported{"regexp match on a symbolic string"})
+		}
+		return Bool(reOf(e, st, args[0]).MatchString(s))
+	}
+	models["(*regexp.Regexp).Match"] = func(e *Engine, st *State, args []Value, call *ssa.Call, pos token.Pos) Value {
+		sl, ok := args[1].(SliceV)
+		if !ok {
+			panic(unsupported{"regexp.Match on non-slice"})
+		}
+		s, ok := e.concString(st, StringV{isObj: true, obj: sl.obj, off: sl.off, ln: sl.ln})
+		if sl.obj == 0 {
+			s, ok = "", true
+		}
+		if !ok {
+			panic(unsupported{"regexp match on symbolic bytes"})
+		}
+		return Bool(reOf(e, st, args[0]).MatchString(s))
+	}
+	models["(*regexp.Regexp).String"] = func(e *Engine, st *State, args []Value, call *ssa.Call, pos token.Pos) Value {
+		return StringV{conc: reOf(e, st, args[0]).String()}
+	}
+	models["(*regexp.Regexp).FindStringSubmatch"] = func(e *Engine, st *State, args []Value, call *ssa.Call, pos token.Pos) Value {
+		s, ok := e.concString(st, args[1])
+		if !ok {
+			panic(unsupported{"regexp FindStringSubmatch on a symbolic string"})
+		}
+		res := reOf(e, st, args[0]).FindStringSubmatch(s)
+		if res == nil {
+			return zeroValue(call.Type())
+		}
+		o := &Object{typ: types.NewArray(types.Typ[types.String], int64(len(res))), n: len(res)}
+		for _, x := range res {
+			o.slots = append(o.slots, StringV{conc: x})
+		}
+		n := BV(64, uint64(len(res)))
+		return SliceV{obj: st.alloc(o), off: BV(64, 0), ln: n, cap: n, es: 1}
+	}
+	models["(*regexp.Regexp).ReplaceAllString"] = func(e *Engine, st *State, args []Value, call *ssa.Call, pos token.Pos) Value {
+		s, ok1 := e.concString(st, args[1])
+		r, ok2 := e.concString(st, args[2])
+		if !ok1 || !ok2 {
+			return StringV{opaque: true}
+		}
+		return StringV{conc: reOf(e, st, args[0]).ReplaceAllString(s, r)}
+	}
+	// internal/bytealg (assembly in the real runtime): direct definitions over byte sequences of concrete length
+	seq := func(e *Engine, st *State, v Value) []*Term {
+		switch x := v.(type) {
+		case StringV:
+			bs, ok := e.stringBytes(st, x)
+			if !ok {
+				panic(unsupported{"bytealg on a string of symbolic length"})
+			}
+			return bs
+		case SliceV:
+			if x.obj == 0 {
+				return nil
+			}
+			bs, ok := e.stringBytes(st, StringV{isObj: true, obj: x.obj, off: x.off, ln: x.ln})
+			if !ok {
+				panic(unsupported{"bytealg on a slice of symbolic length"})
+			}
+			return bs
+		}
+		panic(unsupported{"bytealg on unexpected value"})
+	}
+	indexByte := func(e *Engine, st *State, args []Value, call *ssa.Call, pos token.Pos) Value {
+		bs, c := seq(e, st, args[0]), term(args[1])
+		res := BV(64, ^uint64(0))
+		for i := len(bs) - 1; i >= 0; i-- {
+			res = Ite(Eq(bs[i], c), BV(64, uint64(i)), res)
+		}
+		return res
+	}
+	models["internal/bytealg.IndexByte"] = indexByte
+	models["internal/bytealg.IndexByteString"] = indexByte
+	lastIndexByte := func(e *Engine, st *State, args []Value, call *ssa.Call, pos token.Pos) Value {
+		bs, c := seq(e, st, args[0]), term(args[1])
+		res := BV(64, ^uint64(0))
+		for i := 0; i < len(bs); i++ {
+			res = Ite(Eq(bs[i], c), BV(64, uint64(i)), res)
+		}
+		return res
+	}
+	models["internal/bytealg.LastIndexByte"] = lastIndexByte
+	models["internal/bytealg.LastIndexByteString"] = lastIndexByte
+	count := func(e *Engine, st *State, args []Value, call *ssa.Call, pos token.Pos) Value {
+		bs, c := seq(e, st, args[0]), term(args[1])
+		res := BV(64, 0)
+		for _, b := range bs {
+			res = Bin("bvadd", res, Ite(Eq(b, c), BV(64, 1), BV(64, 0)))
+		}
+		return res
+	}
+	models["internal/bytealg.Count"] = count
+	models["internal/bytealg.CountString"] = count
+	models["internal/bytealg.Equal"] = func(e *Engine, st *State, args []Value, call *ssa.Call, pos token.Pos) Value {
+		a, b := seq(e, st, args[0]), seq(e, st, args[1])
+		if len(a) != len(b) {
+			return Bool(false)
+		}
+		res := Bool(true)
+		for i := range a {
+			res = And(res, Eq(a[i], b[i]))
+		}
+		return res
+	}
+	index := func(e *Engine, st *State, args []Value, call *ssa.Call, pos token.Pos) Value {
+		a, b := seq(e, st, args[0]), seq(e, st, args[1])
+		res := BV(64, ^uint64(0))
+		for i := len(a) - len(b); i >= 0; i-- {
+			m := Bool(true)
+			for j := range b {
+				m = And(m, Eq(a[i+j], b[j]))
+			}
+			res = Ite(m, BV(64, uint64(i)), res)
+		}
+		return res
+	}
+	models["internal/bytealg.Index"] = index
+	models["internal/bytealg.IndexString"] = index
+	models["internal/bytealg.Compare"] = func(e *Engine, st *State, args []Value, call *ssa.Call, pos token.Pos) Value {
+		a, b := seq(e, st, args[0]), seq(e, st, args[1])
+		n := min(len(a), len(b))
+		var res *Term
+		switch {
+		case len(a) < len(b):
+			res = BV(64, ^uint64(0))
+		case len(a) > len(b):
+			res = BV(64, 1)
+		default:
+			res = BV(64, 0)
+		}
+		for i := n - 1; i >= 0; i-- {
+			res = Ite(Cmp("bvult", a[i], b[i]), BV(64, ^uint64(0)), Ite(Cmp("bvugt", a[i], b[i]), BV(64, 1), res))
+		}
+		return res
+	}
+	models["internal/bytealg.MakeNoZero"] = func(e *Engine, st *State, args []Value, call *ssa.Call, pos token.Pos) Value {
+		n := term(args[0])
+		ub, ok := e.maxValue(st, n, 1<<16)
+		if !ok {
+			panic(unsupported{"MakeNoZero of unbounded size"})
+		}
+		return e.newSlice(st, types.Typ[types.Uint8], int(ub), n, n)
+	}
+	models["internal/abi.NoEscape"] = func(e *Engine, st *State, args []Value, call *ssa.Call, pos token.Pos) Value { return args[0] }
 	models["os.Hostname"] = func(e *Engine, st *State, args []Value, call *ssa.Call, pos token.Pos) Value {
 		return TupleV{StringV{conc: "verifhost"}, Iface{}}
 	}
@@ -382,4 +604,108 @@ func lookupModel(fn *ssa.Function) (modelFn, bool) {
 		}
 	}
 	return nil, false
+}
+
+// concString returns the Go string of a StringV whose bytes are all constants.
+func (e *Engine) concString(st *State, v Value) (string, bool) {
+	s, ok := v.(StringV)
+	if !ok || s.opaque {
+		return "", false
+	}
+	if !s.isObj {
+		return s.conc, true
+	}
+	bs, ok := e.stringBytes(st, s)
+	if !ok {
+		return "", false
+	}
+	buf := make([]byte, len(bs))
+	for i, b := range bs {
+		if !b.k {
+			return "", false
+		}
+		buf[i] = byte(b.c)
+	}
+	return string(buf), true
+}
+
+// tailCall: returned by a model to continue as a call of an interpreted function whose result becomes the model's result.
+type tailCall struct {
+	fn   Value
+	args []Value
+}
+
+// goValue converts a fully concrete basic value to a Go value for native formatting.
+func (e *Engine) goValue(st *State, v Value, t types.Type) (any, bool) {
+	if iv, ok := v.(Iface); ok {
+		if iv.typ == nil {
+			return nil, true
+		}
+		if types.NewMethodSet(iv.typ).Len() > 0 || types.NewMethodSet(types.NewPointer(iv.typ)).Len() > 0 {
+			return nil, false // Stringer / error / Formatter: needs the real method
+		}
+		return e.goValue(st, iv.val, iv.typ)
+	}
+	b, ok := t.Underlying().(*types.Basic)
+	if !ok {
+		return nil, false
+	}
+	switch x := v.(type) {
+	case *Term:
+		if !x.k {
+			return nil, false
+		}
+		switch b.Kind() {
+		case types.Bool:
+			return x.c != 0, true
+		case types.Int, types.Int64:
+			return int64(x.c), true
+		case types.Int8:
+			return int8(x.c), true
+		case types.Int16:
+			return int16(x.c), true
+		case types.Int32:
+			return int32(x.c), true
+		case types.Uint, types.Uint64, types.Uintptr:
+			return x.c, true
+		case types.Uint8:
+			return uint8(x.c), true
+		case types.Uint16:
+			return uint16(x.c), true
+		case types.Uint32:
+			return uint32(x.c), true
+		}
+	case StringV:
+		if s, ok := e.concString(st, x); ok {
+			return s, true
+		}
+	}
+	return nil, false
+}
+
+// sprintfConcrete formats natively when the format and every operand are concrete basic values.
+func (e *Engine) sprintfConcrete(st *State, format Value, varargs Value) (string, bool) {
+	f, ok := e.concString(st, format)
+	if !ok {
+		return "", false
+	}
+	sl, ok := varargs.(SliceV)
+	if !ok {
+		return "", false
+	}
+	var goArgs []any
+	if sl.obj != 0 {
+		if !sl.ln.k || !sl.off.k {
+			return "", false
+		}
+		o := st.obj(sl.obj)
+		for k := 0; k < int(sl.ln.c); k++ {
+			g, ok := e.goValue(st, o.slots[int(sl.off.c)+k], nil)
+			if !ok {
+				return "", false
+			}
+			goArgs = append(goArgs, g)
+		}
+	}
+	return fmt.Sprintf(f, goArgs...), true
 }
